@@ -22,7 +22,8 @@ From DD Require Import Base.PyStr Base.Value Diff.Tree Diff.DiffModel Hash.HashM
   Hash.HashProofsBase Hash.HashProofsC07 DiffIO.DiffIOModel DiffIO.DiffIOProofs Options.OptModel
   HashDiff.HashDiffModel HashDiff.HashDiffProofsDefault HashDiff.HashDiffProofsNum
   HashDiff.HashDiffProofsAtoms HashDiff.HashDiffProofsInv HashDiff.HashDiffProofsLift HashDiff.HashDiffProofsKeys
-  HashDiff.HashDiffProofsWitness HashDiff.HashDiffProofsSat.
+  HashDiff.HashDiffProofsWitness HashDiff.HashDiffProofsSat HashDiff.HashDiffProofsParts HashDiff.HashDiffProofsWitness2.
+From DD Require Options.OptDtModel Options.YValue Options.YModel HashDiff.HashDiffYModel HashDiff.HashDiffYProofs HashDiff.HashDiffYWitness.
 
 (* ------------------------------------------------------------------------- *)
 (** (1) The property at DEFAULT options, all nested values: corollary of C05 + C06 + C07
@@ -305,3 +306,181 @@ Proof.
   split; [exact agree_example|]. split; [reflexivity|]. split; [reflexivity|]. split; [exact unary_hash_tok|exact unary_hash_inj].
 Qed.
 Print Assumptions C12_guards_satisfiable.
+
+(* ------------------------------------------------------------------------- *)
+(** (4) Round 3: the guard, component by component.
+        [lift_guard] IS the conjunction of named boolean components; the harness evaluates every one
+        of them (and wf, alias_free, shared F, threshold <= 1: the remaining hypotheses of the theorems
+        above) on every generated case and checks the two real engines inside them. *)
+Theorem C12_guard_is_conjunction_of_observed_components :
+  forall c F rep t1 t2,
+  lift_guard c F rep t1 t2 =
+    lg_tag F t1 t2 && lg_ascii t1 t2 && lg_k9 F t1 t2 && lg_cohk F t1 t2 && goodv c F rep t1 && goodv c F rep t2 /\
+  lift_guardb c F rep t1 t2 =
+    lg_tag F t1 t2 && lg_ascii t1 t2 && lg_k9 F t1 t2 && lg_keyb F t1 t2 && goodv c F rep t1 && goodv c F rep t2.
+Proof. intros. split; [apply lift_guard_parts|apply lift_guardb_parts]. Qed.
+Print Assumptions C12_guard_is_conjunction_of_observed_components.
+
+(* the K9 component is now EXACT: only a bool facing a number that the diff engine finds equal to it
+   (bool first: ==; number first: equal number_to_string texts at the digits in force) is excluded.
+   The guard of rounds 1-2 ("no bool next to an int / float") implies it; not conversely. *)
+Theorem C12_exact_k9_guard_is_weaker :
+  (forall c F rep t1 t2, old_lift_guard c F rep t1 t2 = true -> lift_guard c F rep t1 t2 = true) /\
+  (lift_guard (mkCfg false 33 100 true) F_numty_ false wk_a wk_b = true /\
+   old_lift_guard (mkCfg false 33 100 true) F_numty_ false wk_a wk_b = false) /\
+  (forall F a b, k9_ok F a b = negb (k9_clash F a b)).
+Proof. split; [exact lift_guard_weaker|split; [exact lift_guard_strictly_weaker|reflexivity]]. Qed.
+Print Assumptions C12_exact_k9_guard_is_weaker.
+
+(* ... and its boundary, on both models: True / 2 is inside (both engines: different); 0.5 / False at
+   0 digits is outside in THAT order only (the number first: both render as '0') *)
+Theorem C12_k9_boundary :
+  lift_guard cfg_def F_numty false (VAtom (ABool true)) (VAtom (AInt 2)) = true /\
+  hash_eqF hexhash cfg_def F_numty false (VAtom (ABool true)) (VAtom (AInt 2)) = false /\
+  verdictF hexhash no_ud cfg_def F_numty false no_pairs (VAtom (ABool true)) (VAtom (AInt 2)) = DNonEmpty /\
+  lift_guard cfg_def F_numty false (VAtom (AInt 2)) (VAtom (ABool true)) = true /\
+  lift_guard cfg_def Fn0 false (VAtom (AHalf 1)) (VAtom (ABool false)) = false /\
+  hash_eqF hexhash cfg_def Fn0 false (VAtom (AHalf 1)) (VAtom (ABool false)) = false /\
+  verdictF hexhash no_ud cfg_def Fn0 false no_pairs (VAtom (AHalf 1)) (VAtom (ABool false)) = DEmpty /\
+  verdictF hexhash no_ud cfg_def Fn0 false no_pairs (VAtom (ABool false)) (VAtom (AHalf 1)) = DNonEmpty.
+Proof. exact k9_boundary. Qed.
+Print Assumptions C12_k9_boundary.
+
+(* K2, the run-wide `hashes` table, on the memo-threading model of the DiffIO block: [1] vs [1.0] *)
+Theorem C12_memo_alias_refuted :
+  pystr_eqb (hash_pure hexhash (io_opts cfg_def false) k2_a) (hash_pure hexhash (io_opts cfg_def false) k2_b) = false /\
+  fst (fst (DiffIOMemo.run_diff_io_m hexhash no_ud no_skip no_skip cfg_def false no_pairs k2_a k2_b)) = [] /\
+  fst (run_diff_io hexhash no_ud no_skip no_skip cfg_def false no_pairs k2_a k2_b) <> [] /\
+  fst (run_diff_ioF hexhash no_ud cfg_def no_opts false no_pairs k2_a k2_b) <> [] /\
+  alias_free2 k2_a k2_b = false.
+Proof. exact memo_alias_refuted. Qed.
+Print Assumptions C12_memo_alias_refuted.
+
+(* ------------------------------------------------------------------------- *)
+(** (5) Round 3: the EXTENDED universe (Options/YValue.v: arbitrary floats, Decimal, datetime / date /
+        time / timedelta, Enum members) and ALL shared options (+ truncate_datetime, default_timezone,
+        use_enum_value, number_format_notation).
+        HASH ENGINE  [yh_atom H F a] / [yhash]: the stand-alone DeepHash (HashDiff/HashDiffYModel.v).
+        DIFF ENGINE  [leafR udiff F a b p1 p2] = _diff on two leaves, [ydiff] = DeepDiff on list-free
+                     values (Options/YModel.v), where ignore_order changes nothing. *)
+Module Y.
+Import OptDtModel YValue YModel HashDiffYModel HashDiffYProofs HashDiffYWitness.
+Local Open Scope Z_scope.
+
+(* truncate_datetime x default_timezone x every other option: for EVERY pair of datetimes (naive or
+   aware, any zones) equal hashes <=> _diff reports nothing.  No guard beyond exclude_types = () *)
+Theorem C12_datetime_hash_iff_diff :
+  forall (H : pystr -> pystr), (forall s t, H s = H t -> s = t) ->
+  forall udiff F, o_excl F = [] ->
+  forall u1 o1 u2 o2 p1 p2,
+  (yh_atom H F (ADt u1 o1) = yh_atom H F (ADt u2 o2) <-> leafR udiff F (ADt u1 o1) (ADt u2 o2) p1 p2 = Ok []).
+Proof. exact y_datetime_hash_iff_diff. Qed.
+Print Assumptions C12_datetime_hash_iff_diff.
+
+(* ... and both say: the wall clocks floored to the unit IN THEIR OWN ZONES, then moved to UTC (a naive
+   one read in default_timezone), coincide *)
+Theorem C12_datetime_spec :
+  forall (H : pystr -> pystr), (forall s t, H s = H t -> s = t) ->
+  forall udiff F u1 o1 u2 o2 p1 p2, o_excl F = [] ->
+  (leafR udiff F (ADt u1 o1) (ADt u2 o2) p1 p2 = Ok [] <->
+   (dt_trunc (o_trunc F) u1 - 60000000 * match o1 with Some o => o | None => o_tz F end =
+    dt_trunc (o_trunc F) u2 - 60000000 * match o2 with Some o => o | None => o_tz F end)%Z).
+Proof. exact y_datetime_spec. Qed.
+Print Assumptions C12_datetime_spec.
+
+(* use_enum_value.  DeepHash always hashes the value; _diff unwraps exactly when the TYPES differ (a
+   plain value, a member of another class) and then compares without type check; None on either
+   side is reported.  So at such a position, neither side None-valued, the property holds iff it
+   holds for the two VALUES under the comparer of the first one's type with report_type_change off. *)
+Theorem C12_enum_unwrapping :
+  forall udiff F, o_enum F = true ->
+  (forall c n o v, yh_text F (AEnum c n o v) = yh_text F (atom_of_e v)) /\
+  (forall c n o v b p1 p2, o_excl F = [] -> o_nan F = false -> other_class c b = true ->
+     leafR udiff F (AEnum c n o v) b p1 p2 =
+       if is_none (atom_of_e v) || is_none (unwrap F b)
+       then Ok (rep_atoms F KValue p1 p2 (atom_of_e v) (unwrap F b))
+       else dispatch udiff F false (atom_of_e v) (unwrap F b) p1 p2).
+Proof.
+  intros udiff F E. split; [intros; apply yh_text_unwrap; exact E|].
+  intros. apply (leafR_enum_unwrap udiff F E); assumption.
+Qed.
+Print Assumptions C12_enum_unwrapping.
+
+Theorem C12_enum_transfer_partial :
+  forall udiff F, o_enum F = true ->
+  forall (H : pystr -> pystr) c n o v b p1 p2,
+  o_excl F = [] -> o_nan F = false -> other_class c b = true ->
+  is_none (atom_of_e v) = false -> is_none (unwrap F b) = false ->
+  ((yh_atom H F (AEnum c n o v) = yh_atom H F b <-> leafR udiff F (AEnum c n o v) b p1 p2 = Ok []) <->
+   (yh_atom H F (atom_of_e v) = yh_atom H F (unwrap F b) <-> dispatch udiff F false (atom_of_e v) (unwrap F b) p1 p2 = Ok [])).
+Proof. exact y_enum_transfer. Qed.
+Print Assumptions C12_enum_transfer_partial.
+
+(* the three ways the guards of the transfer theorem are needed (findings enum-none-value,
+   enum-same-class-members, enum-unwrap-skips-type-check) *)
+Theorem C12_enum_none_value_refuted :
+  obs Yenum false (va E4_N) (va ANone) = (Some true, YNonEmpty) /\
+  obs Yenum false (d1 ks (va E4_N)) (d1 ks (va ANone)) = (Some true, YNonEmpty) /\
+  obs Yenum false (d1 ks (va E4_N)) (d1 ks (va E4_N)) = (Some true, YEmpty).
+Proof. exact y_enum_none_value_refuted. Qed.
+Print Assumptions C12_enum_none_value_refuted.
+Theorem C12_enum_same_class_refuted :
+  obs Yenum_case false (va E_B) (va E_D) = (Some true, YNonEmpty) /\ other_class (s2p "E") E_D = false.
+Proof. exact y_enum_same_class_refuted. Qed.
+Print Assumptions C12_enum_same_class_refuted.
+Theorem C12_enum_unwrap_skips_type_check_refuted :
+  obs Yenum false (va E_A) (va (AFloat 1 0)) = (Some false, YEmpty) /\ other_class (s2p "E") (AFloat 1 0) = true.
+Proof. exact y_enum_unwrap_skips_type_check_refuted. Qed.
+Print Assumptions C12_enum_unwrap_skips_type_check_refuted.
+Theorem C12_enum_dict_keys_refuted :
+  obs Yenum false (d1 E_A (va (AInt 1))) (d1 (AInt 1) (va (AInt 1))) = (Some true, YNonEmpty).
+Proof. exact y_enum_dict_keys_refuted. Qed.
+Print Assumptions C12_enum_dict_keys_refuted.
+
+(* datetimes where the two engines do NOT share the normaliser: set members (item hashes are not
+   truncated) and dict keys (never normalised by _diff_dict); the same two datetimes as dict VALUES agree *)
+Theorem C12_truncate_not_forwarded_refuted :
+  obs (Ytrunc UMinute) false (VSet [ADt t_10_20_01 None]) (VSet [ADt t_10_20_02 None]) = (Some true, YNonEmpty) /\
+  obs (Ytrunc UMinute) false (d1 ks (va (ADt t_10_20_01 None))) (d1 ks (va (ADt t_10_20_02 None))) = (Some true, YEmpty).
+Proof. exact y_truncate_not_forwarded_refuted. Qed.
+Print Assumptions C12_truncate_not_forwarded_refuted.
+Theorem C12_datetime_dict_keys_refuted :
+  obs (Ytz 120) false (d1 (ADt t_10_20_30 None) (va (AInt 1))) (d1 (ADt t_08_20_30 (Some 0)) (va (AInt 1))) = (Some true, YNonEmpty) /\
+  obs (Ytz 120) false (d1 ks (va (ADt t_10_20_30 None))) (d1 ks (va (ADt t_08_20_30 (Some 0)))) = (Some true, YEmpty).
+Proof. exact y_datetime_dict_keys_refuted. Qed.
+Print Assumptions C12_datetime_dict_keys_refuted.
+
+(* numbers: Decimal exponents; the numeric type group containing the datetime types *)
+Theorem C12_decimal_exponent_refuted :
+  obs Y0 false (va (ADec 10 (-1))) (va (ADec 100 (-2))) = (Some false, YEmpty).
+Proof. exact y_decimal_exponent_refuted. Qed.
+Print Assumptions C12_decimal_exponent_refuted.
+Theorem C12_number_vs_datetime_refuted :
+  obs Ynumty false (va (AInt (-2))) (va (ADt t_10_20_30 None)) = (Some false, YRaised EType).
+Proof. exact y_number_vs_datetime_refuted. Qed.
+Print Assumptions C12_number_vs_datetime_refuted.
+Theorem C12_timedelta_hash_refuted :
+  obs Ysig0 false (va (ATd 5000000)) (va (ATd 5000000)) = (None, YEmpty).
+Proof. exact y_timedelta_hash_refuted. Qed.
+Print Assumptions C12_timedelta_hash_refuted.
+Theorem C12_truncate_date_timedelta_refuted :
+  obs (Ytrunc UHour) false (d1 ks (va (ADate 2024 1 1))) (d1 ks (va (ADate 2024 1 1))) = (Some true, YRaised EType) /\
+  obs (Ytrunc UHour) false (d1 ks (va (ATd 5000000))) (d1 ks (va (ATd 5000000))) = (Some true, YRaised EAttr).
+Proof. exact y_truncate_date_timedelta_refuted. Qed.
+Print Assumptions C12_truncate_date_timedelta_refuted.
+Theorem C12_date_key_cleaning_refuted :
+  obs Ycase_sig3 false (d1 (ADate 2024 1 1) (va (AInt 1))) (d1 (ADate 2024 1 1) (va (AInt 1))) = (Some true, YRaised EType).
+Proof. exact y_date_key_cleaning_refuted. Qed.
+Print Assumptions C12_date_key_cleaning_refuted.
+
+(* the hypotheses are satisfiable and the engines agree there on non-trivial pairs *)
+Theorem C12_extended_universe_agree_examples :
+  obs (Ytrunc UMinute) false (va (ADt t_10_20_01 None)) (va (ADt t_10_20_02 None)) = (Some true, YEmpty) /\
+  obs (Ytz 120) false (va (ADt t_10_20_30 None)) (va (ADt t_08_20_30 (Some 0))) = (Some true, YEmpty) /\
+  obs Y0 false (va (ADt t_10_20_30 None)) (va (ADt t_08_20_30 (Some 0))) = (Some false, YNonEmpty) /\
+  obs Yenum false (d1 ks (va E_A)) (d1 ks (va (AInt 1))) = (Some true, YEmpty) /\
+  obs Yenum_case false (va E_B) (va (AStr (s2p "X"))) = (Some true, YEmpty) /\
+  other_class (s2p "E") (AInt 1) = true /\ is_none (atom_of_e (EInt 1)) = false.
+Proof. exact y_agree_examples. Qed.
+Print Assumptions C12_extended_universe_agree_examples.
+End Y.
